@@ -1,6 +1,12 @@
 #!/usr/bin/env python3
 """Turn the edge lines printed by `tlc -simulate` (random walks of a deep configuration) into the tour file
-format: each walk becomes a path from the initial state with the model's prediction for every step."""
+format: each walk becomes a path from the initial state with the model's prediction for every step.
+
+TLC prints the ACTION_CONSTRAINT line for every candidate successor it generates for the current state of a
+walk (all successors of one action; with a monolithic Next: all successors), consecutively, and then moves to
+the one it chose.  So the dump is a sequence of groups of edges with a common source; the edge that was taken
+is the one whose destination is the source of the next group.  The last group of a walk has no successor group
+and is dropped."""
 import sys, json
 from tourgen import parse_line, is_ghost
 
@@ -9,37 +15,58 @@ def main():
     consts = {}
     ids = {}
     views = []
-    paths = []
-    cur = []
-    init_key = None
-    n = 0
+    groups = []      # [(src_id, [(evt, dst_id), ...])]
+    init_id = None
     with open(src_file) as f:
         for line in f:
             if line.startswith('<<"EDGE"'):
                 e = parse_line(line)
                 ks = json.dumps(e["src"], sort_keys=True)
                 kd = json.dumps(e["dst"], sort_keys=True)
-                if init_key is None:
-                    init_key = ks
                 for k, v in ((ks, e["src"]), (kd, e["dst"])):
                     if k not in ids:
                         ids[k] = len(views)
                         views.append(v)
-                if ks == init_key and cur:
-                    paths.append(cur)
-                    cur = []
-                cur.append([e["evt"], ids[kd]])
-                n += 1
+                if init_id is None:
+                    init_id = ids[ks]
+                if groups and groups[-1][0] == ids[ks] and not (len(groups[-1][1]) == 1 and groups[-1][1][0][1] == ids[ks] and False):
+                    groups[-1][1].append((e["evt"], ids[kd]))
+                else:
+                    groups.append((ids[ks], [(e["evt"], ids[kd])]))
             elif line.startswith('<<"CONST"'):
                 consts = parse_line(line)
-    if cur:
-        paths.append(cur)
-    if init_key is None:
+    if init_id is None:
         print("no edges found", file=sys.stderr)
         sys.exit(2)
+    # a group whose source equals the source of the previous group cannot be told apart from it when a
+    # self-loop was taken; the merge above treats them as one group (harmless: the walk just gets shorter)
+    paths = []
+    cur = []
+    dropped = 0
+    for i, (src, edges) in enumerate(groups):
+        if not cur and src != init_id:
+            # the start of this walk was lost (previous walk boundary was ambiguous): skip until the next init
+            dropped += 1
+            continue
+        nxt = groups[i + 1][0] if i + 1 < len(groups) else None
+        choice = None
+        for (evt, dst) in edges:
+            if dst == nxt:
+                choice = (evt, dst)
+                break
+        if choice is None:
+            # end of this walk (the next group starts a new walk in the initial state, or EOF)
+            if cur:
+                paths.append(cur)
+            cur = []
+            continue
+        cur.append([choice[0], choice[1]])
+    if cur:
+        paths.append(cur)
+    n = sum(len(p) for p in paths)
     with open(out_file, "w") as f:
         hdr = {"kind": "header", "consts": consts, "states": len(views), "edges": n, "edges_covered": n,
-               "paths": len(paths), "steps": n, "init": ids[init_key], "walks": True}
+               "paths": len(paths), "steps": n, "init": init_id, "walks": True, "groups_dropped": dropped}
         f.write(json.dumps(hdr) + "\n")
         for i, v in enumerate(views):
             vis = {k: x for k, x in v.items() if not is_ghost(k)}
